@@ -26,6 +26,8 @@ pub struct Env {
     pub dict: Dict,
     pub sup: RefCell<Supervised>,
     pub known: BTreeSet<String>,
+    /// set when the failure being shrunk is an overrun (only then do overruns count while shrinking)
+    pub hang_mode: std::cell::Cell<bool>,
 }
 
 pub fn mk_env(known: BTreeSet<String>) -> Env {
@@ -36,6 +38,7 @@ pub fn mk_env(known: BTreeSet<String>) -> Env {
         dict,
         sup: RefCell::new(Supervised::new(vec![json!({"cmd": "new_ctx"})])),
         known,
+        hang_mode: std::cell::Cell::new(false),
     }
 }
 
@@ -121,6 +124,16 @@ pub fn run_history(env: &Env, lines: &[(u8, String)], st: &mut Stats) -> CaseRes
                 other => out = other,
             }
             ans_bits = (1, 1);
+        }
+        if let Outcome::Timeout(_) = &out {
+            if shrinking && !env.hang_mode.get() {
+                // shorter budget while shrinking some other failure: an overrun here proves nothing
+                ans_bits = (1, 1);
+                continue;
+            }
+            if !shrinking {
+                env.hang_mode.set(true);
+            }
         }
         match out {
             Outcome::Reply(v) => {
